@@ -54,3 +54,22 @@ PROPS["C01"] = dict(
     rule="cases = random (Hamiltonian class, wavefunction kind, norb, e0, tensor/operator, state); non-trivial = the exact "
          "result has a negative or non-real amplitude; distinct by (class, wavefunction kind, norb, case index)",
 )
+
+PROPS["C07"] = dict(
+    level="proof",
+    technique="Lean 4 theorems (export sign = Spec embedding x sector factor; intertwining with the Jordan-Wigner "
+              "image for count-preserving strings; proved negation across sectors) + exact correspondence of "
+              "to_cirq/from_cirq with the Lean export model and Spec on both code paths",
+    text="Proved: the export's sign is the Spec embedding iota times a factor depending only on (n_alpha, n_beta), so "
+         "apply-then-export = export-then-JW-image for every operator string that preserves the counts; the cross-sector "
+         "statement is proved false for the export as implemented (known finding). The correspondence compares every "
+         "exported amplitude and index exactly with the Lean model, checks the intertwining against Spec on the exported "
+         "vector, the round trip, and the sector set created by from_cirq at thresholds sitting exactly on amplitudes.",
+    note="Lean kernel; only the Jordan-Wigner code is modelled (other binary codes: not claimed); index bijection, "
+         "round trip and detection are decided by the exact correspondence (norb<=3 quick, <=4 thorough), not by theorems.",
+    design_ref="DESIGN.md §5 C07",
+    rule="cases = random wavefunctions (single/multi-sector/spin-broken/number-broken) exported, re-imported, and "
+         "intertwined with random 1-2 term Hermitian operators; random sparse vectors imported at thresholds on the "
+         "amplitude moduli; non-trivial = a negative/non-real amplitude present; distinct by (check kind, wavefunction "
+         "kind, norb, case index)",
+)
